@@ -234,3 +234,19 @@ package keeper
 //@ ensures err == nil ==> lpAt(Store_tunnel, msg.TunnelID).LastInterval == sdkctx(goCtx).BlockTime().Unix() && lpAt(Store_tunnel, msg.TunnelID).TunnelID == msg.TunnelID
 //@ ensures err == nil ==> lpAt(Store_tunnel, msg.TunnelID).Prices == types.mergedPrices(old(lpAt(Store_tunnel, msg.TunnelID)).Prices, packetAt(Store_tunnel, msg.TunnelID, wrapu64(old(tunnelAt(Store_tunnel, msg.TunnelID)).Sequence + 1)).Prices)
 //@ ensures (!old(has(Store_tunnel, types.TunnelStoreKey(msg.TunnelID))) || old(tunnelAt(Store_tunnel, msg.TunnelID)).Creator != msg.Creator || !old(tunnelAt(Store_tunnel, msg.TunnelID)).IsActive) ==> err != nil && Store_tunnel == old(Store_tunnel) && Bank == old(Bank) && Other == old(Other)
+
+// ---- C17: genesis import ---------------------------------------------------------------------------------------------
+// every imported tunnel is stored under its id, and a tunnel flagged active IS in the active set the end-blocker walks
+// (whatever its route): the flag and the set agree after an export / import restart
+//@ func (k Keeper) ensureIBCPort
+//@ trusted
+//@ modifies Other
+//@ func InitGenesis
+//@ may_panic calls
+//@ modifies Store_tunnel, Bank, Other
+//@ ensures forall j :: 0 <= j && j < len(data.Tunnels) ==> has(Store_tunnel, types.TunnelStoreKey(data.Tunnels[j].ID))
+//@ ensures forall j :: 0 <= j && j < len(data.Tunnels) ==> (data.Tunnels[j].IsActive ==> has(Store_tunnel, types.ActiveTunnelIDStoreKey(data.Tunnels[j].ID)))
+//@ loop 0: invariant forall j :: 0 <= j && j < #i ==> has(Store_tunnel, types.TunnelStoreKey(data.Tunnels[j].ID))
+//@ loop 0: invariant forall j :: 0 <= j && j < #i ==> (data.Tunnels[j].IsActive ==> has(Store_tunnel, types.ActiveTunnelIDStoreKey(data.Tunnels[j].ID)))
+//@ loop 1: invariant forall j :: 0 <= j && j < len(data.Tunnels) ==> has(Store_tunnel, types.TunnelStoreKey(data.Tunnels[j].ID))
+//@ loop 1: invariant forall j :: 0 <= j && j < len(data.Tunnels) ==> (data.Tunnels[j].IsActive ==> has(Store_tunnel, types.ActiveTunnelIDStoreKey(data.Tunnels[j].ID)))
